@@ -11,6 +11,8 @@ if [ "${SUITE:-0}" = 1 ]; then
   cargo test --workspace --no-fail-fast --offline 2>&1 | grep -E '^test result|FAILED|failed' | head -8
 fi
 cd /verif
+# runs against a modified tree must not overwrite the committed evidence
+export VERIF_EVIDENCE_DIR=/verif/build/mutant-evidence
 for id in "$@"; do
   ./check "$id" "${TIER:-quick}" > /tmp/mutant.$$.out 2>&1; rc=$?
   echo "== $(basename $P) $id rc=$rc  $(grep -c '^VIOLATION' /tmp/mutant.$$.out) violation lines"
